@@ -57,7 +57,27 @@ func sendCtl(kind string, d io.Writer, st ws.State) {
 	}
 }
 
+// identityExt is a send extension that leaves the header as it is (a second, unrelated
+// extension in the chain).
+var identityExt = wsutil.SendExtensionFunc(func(h ws.Header) (ws.Header, error) { return h, nil })
+
+// chain says where the message state sits among the writer's send extensions.
+var chains = []string{"state-only", "state+other", "other+state"}
+
 func runSend(client bool, bufN int, seq []msgSpec, recycled bool) *explore.Fail {
+	for _, chain := range chains {
+		if f := runSendChain(client, bufN, seq, recycled, chain); f != nil {
+			f.Detail = "send extensions: " + chain + "\n" + f.Detail
+			return f
+		}
+		if recycled || len(seq) > 2 {
+			break
+		}
+	}
+	return nil
+}
+
+func runSendChain(client bool, bufN int, seq []msgSpec, recycled bool, chain string) *explore.Fail {
 	d := env.NewDst()
 	st := ws.StateServerSide
 	if client {
@@ -80,7 +100,14 @@ func runSend(client bool, bufN int, seq []msgSpec, recycled bool) *explore.Fail 
 	} else {
 		w = wsutil.NewWriterBufferSize(d, st, ws.OpText, bufN)
 	}
-	w.SetExtensions(&ms)
+	switch chain {
+	case "state+other":
+		w.SetExtensions(&ms, identityExt)
+	case "other+state":
+		w.SetExtensions(identityExt, &ms)
+	default:
+		w.SetExtensions(&ms)
+	}
 	S := w.Size()
 	type want struct {
 		compressed bool
@@ -185,7 +212,11 @@ func runRecv(side streams.Side, frames []streams.Frame, chunk int) (out []obs, e
 	src := env.NewSrc(data)
 	src.Policy = env.FixedChunk(chunk)
 	var ms wsflate.MessageState
-	rd := &wsutil.Reader{Source: src, State: drivers.State(side) | ws.StateExtended, Extensions: []wsutil.RecvExtension{&ms}}
+	// the message state sits alone, before or behind an unrelated extension that leaves the
+	// header alone (by stream: the three placements rotate with the number of frames and chunk)
+	identity := wsutil.RecvExtensionFunc(func(h ws.Header) (ws.Header, error) { return h, nil })
+	exts := [][]wsutil.RecvExtension{{&ms}, {&ms, identity}, {identity, &ms}}[(len(frames)+chunk)%3]
+	rd := &wsutil.Reader{Source: src, State: drivers.State(side) | ws.StateExtended, Extensions: exts}
 	rd.OnIntermediate = func(h ws.Header, r io.Reader) error {
 		p, e := io.ReadAll(r)
 		out = append(out, obs{"ctl", h, ms.IsCompressed(), p})
